@@ -1677,6 +1677,11 @@ pub mod enc {
         pub meta: bool,
         /// insert a chunk with an unknown name before the k-th chunk
         pub unknown_chunk_at: Option<usize>,
+        /// how the unknown chunk is stored, and its payload length (a compressible pattern)
+        #[serde(default = "default_unknown_comp")]
+        pub unknown_comp: Comp,
+        #[serde(default = "default_unknown_len")]
+        pub unknown_len: usize,
         /// classes (by name) written in the service object format
         pub service_format: Vec<String>,
         /// extra PROP chunks: (class index, property name, Some(type id) / None = cut after the name)
@@ -1684,6 +1689,16 @@ pub mod enc {
         /// position of the junk PROP chunks: before (false) or after (true) the real ones
         pub junk_last: bool,
         pub switches_impl: bool,
+    }
+
+    pub fn default_unknown_comp() -> Comp {
+        Comp::None
+    }
+    pub fn default_unknown_len() -> usize {
+        16
+    }
+    pub fn unknown_payload(n: usize) -> Vec<u8> {
+        b"an unknown chunk".iter().cycle().take(n).cloned().collect()
     }
 
     pub fn permutation(n: usize, mut k: usize) -> Vec<usize> {
@@ -1726,6 +1741,8 @@ pub mod enc {
             reverse_columns: false,
             meta: false,
             unknown_chunk_at: None,
+            unknown_comp: Comp::None,
+            unknown_len: 16,
             service_format: vec![],
             junk_props: vec![],
             junk_last: false,
@@ -1874,12 +1891,12 @@ pub mod enc {
         out.extend_from_slice(&[0u8; 8]);
         for (k, (name, data)) in chunks.iter().enumerate() {
             if e.unknown_chunk_at == Some(k) {
-                out.extend(frame_chunk(b"ZZZZ", b"an unknown chunk", e.comp[k % e.comp.len()]));
+                out.extend(frame_chunk(b"ZZZZ", &unknown_payload(e.unknown_len), e.unknown_comp));
             }
             out.extend(frame_chunk(name, data, e.comp[k % e.comp.len()]));
         }
         if e.unknown_chunk_at == Some(chunks.len()) {
-            out.extend(frame_chunk(b"ZZZZ", b"an unknown chunk", Comp::None));
+            out.extend(frame_chunk(b"ZZZZ", &unknown_payload(e.unknown_len), e.unknown_comp));
         }
         out.extend(frame_chunk(b"END\0", b"</roblox>", Comp::None));
         Ok(out)
